@@ -151,6 +151,13 @@ def e2e(chk: Check, cases, rng, n):
             if rng.random() < 0.5:
                 # a second weight on the same dataset without interval acts everywhere (factor 1 here so that the pattern stays readable: 3 vs 1 ... times 1)
                 case["weights"].append({"datasets": ["d1"], "givs": [], "mivs": [[0, 0]], "value": 7})
+            if rng.random() < 0.4:
+                # full model (global megacomplex): the weight is applied to the flattened problem, which must weight each point like the 2-d problem does
+                case["groups"][0]["link"] = False
+                case["datasets"][0]["gmcs"] = [{"scale": 1, "labels": ["x", "y"][: 1 + (ng > 1)],
+                                                "cols": [[1] * ng, [g % 3 for g in range(ng)]][: 1 + (ng > 1)]}]
+                case["datasets"][0]["mcs"][0]["labels"] = ["a", "b"]
+                case["datasets"][0]["mcs"][0]["cols"] = cols[:2]
         else:
             case["penalties"] = [{"source": "a", "sivs": tiv, "target": "b", "tivs": [], "param": 2, "weight": 3}]
         desc = f"{kind} axis={coords} intervals={tiv} link={link}"
@@ -194,6 +201,23 @@ def e2e(chk: Check, cases, rng, n):
             other = {p for p in axis if float(rd.weight.sel(spectral=p / 2, time=0.0)) == f0 and float(rd.weight.sel(spectral=p / 2, time=1.0)) == 1.0}
             if aff | other != set(axis) or not (must <= aff <= may):
                 chk.violation(f"Intervals[e2e weight]: {kinds}", f"{desc}: weight applied at {sorted(p / 2 for p in aff)}, must contain {sorted(p / 2 for p in must)} within {sorted(p / 2 for p in may)}", rep)
+            # the reported weight is also the APPLIED one: the returned clps satisfy the normal equations of the problem weighted with it
+            W = rd.weight.transpose("time", "spectral").values
+            R = rd.residual.transpose("time", "spectral").values
+            D = np.array(case["datasets"][0]["data"], dtype=float)
+            mc = case["datasets"][0]["mcs"][0]
+            A = np.array(mc["cols"], dtype=float).T
+            gm = case["datasets"][0].get("gmcs") or []
+            if gm:
+                G = np.array(gm[0]["cols"], dtype=float).T
+                grad = A.T @ (W * W * R) @ G
+            else:
+                grad = A.T @ (W * W * R)
+            scale_ = float(np.abs(W * W * D).sum()) * float(np.abs(A).max()) + 1.0
+            if not np.all(np.abs(grad) <= 1e-9 * scale_):
+                chk.violation(f"Intervals[e2e weight applied{' full model' if gm else ''}]: {kinds}",
+                              f"{desc}: the fitted clps do not minimise the problem weighted with the reported weight (normal equations off by {float(np.abs(grad).max()):.3g}): "
+                              f"the weight applied to the fit is not the one the interval selects", rep)
         else:
             got = [float(v) for g in res.additional_penalty for v in g]
             a = {p: float(rd.clp.sel(spectral=p / 2, clp_label="a")) for p in axis}
